@@ -4,6 +4,7 @@ import json, os, sys, time
 
 ROOT = os.path.dirname(os.path.dirname(os.path.abspath(__file__)))
 FINDINGS = os.path.join(ROOT, "known_findings.json")
+CAP = int(os.environ.get("VERIF_MAX_VIOLATIONS", "20"))      # violation files written per run (one per distinct key)
 
 
 class Machinery(Exception):
@@ -58,7 +59,7 @@ class Run:
                 self.pid, self.known[key].get("what", ""), key, len(hit[key])))
         paths, seen = [], set()
         for i, (key, what, replay) in enumerate(new):
-            if key in seen or len(paths) >= 20:
+            if key in seen or len(paths) >= CAP:
                 continue
             seen.add(key)
             p = os.path.join(self.work, "violations", "%s_%03d.json" % (self.pid, len(paths)))
@@ -67,7 +68,7 @@ class Run:
             paths.append(p)
             n = sum(1 for k, _, _ in new if k == key)
             what = "%s (%d occurrence(s) of this key)" % (what, n)
-            if len(paths) <= 20:
+            if len(paths) <= CAP:
                 print("VIOLATION property=%s replay=%s  # %s :: %s" % (self.pid, p, key, what))
         self.cov["known_findings_hit"] = sorted(hit)
         self.cov["violation_keys"] = sorted({k for k, _, _ in new})
